@@ -151,6 +151,11 @@ def key_specs(L, R, LK, RK, spec, K):
     elif spec == 'ext':
         lo = [Vector(list(ks)) for ks in LK] if K > 1 else Vector(list(LK[0]))
         ro = [Vector(list(ks)) for ks in RK] if K > 1 else Vector(list(RK[0]))
+    elif spec == 'extnamed':
+        # external key vectors that carry the NAME of another column of their table (same length, other values):
+        # a key given as a vector is that vector, never a like-named column looked up in its place
+        lo = [Vector(list(ks), name='lid') for ks in LK] if K > 1 else Vector(list(LK[0]), name='lid')
+        ro = [Vector(list(ks), name='rid') for ks in RK] if K > 1 else Vector(list(RK[0]), name='rid')
     elif spec == 'mixed':
         lo = (['k', L['j']] + knl[2:]) if K > 1 else L['k']
         ro = ([Vector(list(RK[0])), 'jj'] + [R[n_] for n_ in knr[2:]]) if K > 1 else 'k'
@@ -218,7 +223,12 @@ def _join_body(args):
     kind = c['kind']
     wl, wr = len(lnames), len(rnames)
     if mode == 'rows':
-        out = call(kind, L, R, lo, ro, 'many_to_many')
+        exp = c.get('expect', 'many_to_many')
+        if exp != 'many_to_many':
+            # a cardinality expectation that holds must not change the result (C11 owns the raising side)
+            if exp in ('one_to_one', 'one_to_many') and not unique(lkeys): return None
+            if exp in ('one_to_one', 'many_to_one') and not unique(rkeys): return None
+        out = call(kind, L, R, lo, ro, exp)
         why = check_rows(kind, out, lkeys, rkeys, lrows, rrows, lnames, rnames)
         if why: return H.fail(why)
     elif mode == 'contain':
